@@ -21,6 +21,7 @@ INVARIANT DF_MeshNormal
 INVARIANT DF_FieldShapes
 INVARIANT DF_SubregionsWellFormed
 INVARIANT DF_OwnValidity
+INVARIANT DF_OwnArray
 INVARIANT DF_Labels
 INVARIANT DF_RootsLive
 INVARIANT DF_RejectUnchanged_S
